@@ -779,10 +779,11 @@ func checkFloater(c floaterCase, o *kit.Obs) error {
 				}
 			}
 		}
+		previewSolver()
 		if guarded(func() { res = model3d.StretchMinimizingParameterization(b.m, bm, w, nil, c.Stretch, c.Eta, false) }) {
 			return solverVerdict(o, "StretchMinimizingParameterization")
 		}
-	} else if guarded(func() { res = model3d.Floater97(b.m, bm, w, nil) }) {
+	} else if previewSolver(); guarded(func() { res = model3d.Floater97(b.m, bm, w, nil) }) {
 		return solverVerdict(o, "Floater97")
 	}
 	if err := b.unchanged(); err != nil {
@@ -983,6 +984,13 @@ type atlas struct {
 	in       []model3d.MeshUVMap // pack: the maps that were packed
 	nCharts  int
 	infeasib bool
+}
+
+// previewSolver: a caller takes the default solver and loosens it for a quick preview of its own; the solver is the
+// caller's, and what the library uses when it is given none stays as documented.
+func previewSolver() {
+	s := model3d.Floater97DefaultSolver()
+	s.MaxIters, s.MSETolerance, s.MAETolerance = 1, 1, 1
 }
 
 var chartCountLine = regexp.MustCompile(`created a total of (\d+) local parameterizations`)
